@@ -78,7 +78,17 @@ def gen_plan(rng, index, tier):
         for k in range(j * b, min((j + 1) * b, n)):
             out[k]["animals"] = []
     plan["provider"] = "labels" if mixed else rng.choice(["labels", "labels", "video"])
+    if kind == "topdown" and not plan.get("gt_centroids") and rng.random() < 0.15:
+        plan["centroid_only"] = True  # centroid model alone (FindInstancePeaksGroundTruth): needs the labelled instances
+    if plan.get("gt_centroids") or plan.get("centroid_only"):
+        plan["provider"] = "labels"
+    if plan.get("centroid_only"):
+        # partially labelled frames: the image shows an animal the labels lack, so more centroids are detected than instances are labelled
+        for fr in plan["frames"]:
+            if len(fr["animals"]) >= 2 and rng.random() < 0.4:
+                fr["unlabelled"] = [rng.randrange(len(fr["animals"]))]
     if plan["provider"] == "labels":
+        plan["same_filename"] = rng.random() < 0.3  # both videos embedded in one package file
         fidxs = list(range(14))
         rng.shuffle(fidxs)
         for i, fr in enumerate(plan["frames"]):
@@ -113,6 +123,12 @@ def gen_plan(rng, index, tier):
             fr["animals"] = [a.tolist()]
     if kind == "topdown":
         plan["max_instances"] = rng.choice([None, 1, 1, 2, 2])
+        if plan.get("gt_centroids"):
+            plan["max_instances"] = None  # labelled centroids carry no score to rank by; the limit does not apply to them
+        if any(f.get("unlabelled") for f in plan["frames"]):
+            # the instance table is cut to the labels' width in detection order (no limit "set"): a reference that is itself cut
+            # cannot say which instances a score-ranked limit should have kept
+            plan["max_instances"] = None
     plan["perm_seed"] = rng.randrange(1 << 30)
     plan["faults"] = []
     if rng.random() < 0.2:
@@ -125,7 +141,7 @@ def describe(plan):
     d = {"kind": plan["kind"], "provider": plan["provider"], "batch": plan["batch"], "max_instances": plan.get("max_instances"),
          "refinement": plan["refinement"], "animals_per_frame": [len(f["animals"]) for f in plan["frames"]],
          "ids": [(f.get("vid", 0), f.get("fidx", i)) for i, f in enumerate(plan["frames"])], "faults": plan["faults"], "border": plan.get("border"),
-         "sizes": plan.get("sizes")}
+         "sizes": plan.get("sizes"), "gt_centroids": plan.get("gt_centroids"), "centroid_only": plan.get("centroid_only")}
     for k in ("single", "centroid", "centered", "bottomup", "max_hw"):
         if k in plan:
             d[k] = plan[k]
@@ -145,7 +161,18 @@ def shrink(plan):
             for j in range(len(f["animals"])):
                 p = copy.deepcopy(plan)
                 del p["frames"][i]["animals"][j]
+                if "unlabelled" in f:
+                    u = [x - (x > j) for x in f["unlabelled"] if x != j]
+                    if u:
+                        p["frames"][i]["unlabelled"] = u
+                    else:
+                        p["frames"][i].pop("unlabelled")
                 yield p
+    for i, f in enumerate(fr):
+        if f.get("unlabelled"):
+            p = copy.deepcopy(plan)
+            p["frames"][i].pop("unlabelled")
+            yield p
     if plan["faults"]:
         p = copy.deepcopy(plan)
         p["faults"] = []
@@ -184,6 +211,15 @@ def per_frame(plan, records):
             e["eff"] = float(np.asarray(r["eff_scale"]).reshape(-1)[b])
             if kind == "single":
                 e["insts"].append((np.asarray(r["pred_instance_peaks"][b], dtype=np.float64), np.asarray(r["pred_peak_values"][b], dtype=np.float64), 0.0))
+            elif kind == "topdown" and plan.get("centroid_only"):
+                # one record per batch: (B, max_inst, nodes, 2) padded with NaN rows up to the labelled maximum
+                P = np.asarray(r["pred_instance_peaks"][b], dtype=np.float64).reshape(-1, plan["n_nodes"], 2)
+                # (the repository stacks the values of all frames along axis 0: (B * max_inst, nodes))
+                Vv = np.asarray(r["pred_peak_values"], dtype=np.float64).reshape(len(fidx), -1, plan["n_nodes"])[b]
+                Cv = np.asarray(r["centroid_vals"][b], dtype=np.float64).reshape(-1)
+                for i in range(P.shape[0]):
+                    if not (np.isnan(P[i]).all() and np.isnan(Vv[i]).all()):
+                        e["insts"].append((P[i], Vv[i], float(Cv[i]) if i < len(Cv) else float("nan")))
             elif kind == "topdown":
                 bbox = np.asarray(r["instance_bbox"][b]).reshape(4, 2)
                 e["insts"].append((np.asarray(r["pred_instance_peaks"][b], dtype=np.float64) + bbox[0], np.asarray(r["pred_peak_values"][b], dtype=np.float64),
@@ -220,7 +256,9 @@ def execute(plan, choices=None):
     violations = []
     probes = {"frames_compared": 0, "batches_with_mixed_content": 0, "empty_frames_in_batch": 0, "max_instances_binding": 0,
               "partial_last_batch": 0, "fault_cut_stream": 0, "permuted_run_compared": 0, "two_videos": 0, "degenerate_tie_scene_skipped": 0,
-              "border_scene": int(bool(plan.get("border"))), "whole_batch_empty": 0, "batch_larger_than_paf_grid": int(bool(plan.get("tiny"))), "mixed_frame_sizes": int("sizes" in plan and len({tuple(x) for x in plan["sizes"]}) > 1)}
+              "border_scene": int(bool(plan.get("border"))), "whole_batch_empty": 0, "batch_larger_than_paf_grid": int(bool(plan.get("tiny"))), "mixed_frame_sizes": int("sizes" in plan and len({tuple(x) for x in plan["sizes"]}) > 1),
+              "ground_truth_centroid_runs": int(bool(plan.get("gt_centroids"))), "centroid_only_runs": int(bool(plan.get("centroid_only"))),
+              "videos_share_file_name": int(bool(plan.get("same_filename"))), "partially_labelled_frames": sum(1 for f in plan["frames"] if f.get("unlabelled"))}
 
     def V(kind, where, detail):
         violations.append({"kind": kind, "sig": f"{kind}:{where}", "detail": detail})
@@ -255,7 +293,18 @@ def execute(plan, choices=None):
         # ---- B: every delivered frame alone, fresh predictor, no limit
         ref = {}
         ref_unlimited = {}
-        if not violations:
+        if not violations and plan.get("centroid_only"):
+            # the padded instance table is as wide as the labels file's busiest frame, so a frame cannot be cut out of its file:
+            # the reference is the same file streamed one frame per batch by a fresh predictor
+            rec, end1, err1, sim1, _ = pw.run_predictor(dict(plan), prov, batch=1, max_instances=None)  # same file, same read fault
+            if end1 != "ok" or sim1.failure:
+                V("inference_failed", f"{kind}:alone", f"stream at batch size 1: {end1} {err1} {sim1.failure}")
+            else:
+                pf = per_frame(plan, rec)
+                for i in range(cut):
+                    key = _key(frames[i], i)
+                    ref_unlimited[key] = pf.get(key, {"insts": [], "orig": None, "eff": None})
+        elif not violations:
             for i in range(cut):
                 p1 = dict(plan)
                 p1["faults"] = []
